@@ -117,7 +117,38 @@ def monitor(sess, extra):
     return r
 
 
-MONITORS = {"smallorder": monitor}
+def build_structured(env, reps):
+    """Keys that are NOT of small order but whose Diffie-Hellman value with the session's private key has many
+    zero bytes (a partial zero check would reject them).  Constructed with the reference ladder."""
+    import random
+    from lib import directed
+    from ref import hpke_ref as R
+    g = gen.G(env.rnd)
+    k = R.KEMS[KEM]
+    cw = cl.CaseW()
+    for r in range(reps):
+        ikmR, rngE = g.raw(32), g.raw(32)
+        skR, _ = k.derive_key_pair(ikmR)
+        skE, _ = k.derive_key_pair(rngE)
+        s = cw.session(KEM, gen.KDFS[r % 3], gen.ALL_AEADS[r % 4], sid="y%d" % r)
+        s.call("derive_keypair", ikm=ikmR, out="kR")
+        gen.add_keys(s, g, KEM, "kS")
+        for name, enc, out in directed.x25519_structured_outputs(random.Random(env.rnd.getrandbits(32)), skR):
+            cls = "structured:" + name
+            s.call("setup_r", mode=0, skr="$kR.sk", enc=enc, info="-", out="R", role="enc", cls=cls)
+            s.call("decap", skr="$kR.sk", enc=enc, role="enc", cls=cls)
+            s.call("setup_r", mode=2, skr="$kR.sk", enc=enc, info="-", out="R2", role="enc", cls=cls, pks="$kS.pk")
+            # ... and as the expected sender key: DH(skR, pkS) is the structured value
+            s.call("encap", pkr="$kR.pk", rng=g.rbytes(32), out="he")
+            s.call("decap", skr="$kR.sk", enc="$he.enc", pks=enc, role="pkS", cls=cls)
+        for name, pk, out in directed.x25519_structured_outputs(random.Random(env.rnd.getrandbits(32)), skE):
+            cls = "structured:" + name
+            s.call("setup_s", mode=0, pkr=pk, info="-", rng=rngE.hex() + "aa" * 8, out="S", role="pkR", cls=cls)
+            s.call("encap", pkr=pk, rng=rngE.hex() + "aa" * 8, role="pkR", cls=cls)
+    return cw
+
+
+MONITORS = {"smallorder": monitor, "structured": monitor}
 
 
 def run(env):
@@ -126,6 +157,9 @@ def run(env):
     res = env.drive("smallorder", cw.text())
     env.require_complete(res, "smallorder")
     mr = env.pmap(monitor, res.sessions, workload="smallorder")
+    res2 = env.drive("structured", build_structured(env, env.pick(4, 40)).text())
+    env.require_complete(res2, "structured")
+    env.pmap(monitor, res2.sessions, workload="structured")
     seen = {d[1] for d in env.distinct if d[0] == "zero_encoding"}
     env.extra_cov["small_order_encodings_seen"] = len(seen)
     env.exhaustive = len(seen) == 14
